@@ -167,6 +167,8 @@ func checkC08(c *Ctx, r *Report) {
 	// C08.c config sections copied
 	checkEnumMembersTyped(c, r, "C08.b")
 	checkInfoCopied(c, r, "C08.c", g30, g31)
+	// ... and the configuration they are copied from is the file as written (shared with C20.a)
+	checkConfigDecodedAsRead(c, r, "C08.c")
 	// security/model/controller sub-generators are on every success path
 	for _, sub := range []string{"GenerateSecuritySpec", "GenerateModelsSpec", "GenerateControllersSpec"} {
 		ruleMustCallOK(c, r, "C08.c", g30, "generator/swagen/swagen30."+sub, -1, "3.0: "+sub+" ran without error before a document is returned")
